@@ -1658,7 +1658,12 @@ class QuicConnection:
             )
 
         stream = self._crypto_streams[context.epoch]
-        pending = offset + length - stream.receiver.starting_offset()
+        pending = (
+            offset
+            + length
+            - stream.receiver.starting_offset()
+            + len(self.tls._receive_buffer)
+        )
         if pending > MAX_PENDING_CRYPTO:
             raise QuicConnectionError(
                 error_code=QuicErrorCode.CRYPTO_BUFFER_EXCEEDED,
